@@ -23,15 +23,19 @@ Import ListNotations.
 Local Open Scope N_scope.
 
 (* The identity digest that goes into a request's key is the digest of the bytes CURRENTLY at the
-   requested path (through links).  Needs no collision-freeness. *)
+   requested path (through links).  Needs no collision-freeness.  Spelled out: a request that is
+   served used the identity of a working compiler that is at the path; a working compiler at the
+   path is always served, keyed on its own identity; a file that is no compiler never is. *)
 Theorem C12_identity_is_current :
   forall (detect : N -> option N) (H : N -> N -> N) (f0 : fs) (ops : list op),
     wf_history detect H VFixed f0 ops = true ->
     forall e, In e (exec detect H VFixed (start f0) ops) ->
       identity_current detect e = true /\
-      (forall id, e_id e = Some id -> exists b m, e_cur e = Some (b, m) /\ detect b = Some id) /\
+      (forall id, e_id e = Some id -> served e <> None ->
+                  exists b m, e_cur e = Some (b, m) /\ detect b = Some id) /\
       (forall b m id, e_cur e = Some (b, m) -> detect b = Some id ->
-                      served e <> None /\ e_key e = Some (H id (e_src e))).
+                      served e <> None /\ e_key e = Some (H id (e_src e))) /\
+      (forall b m, e_cur e = Some (b, m) -> detect b = None -> served e = None).
 Proof. intros detect H f0 ops WF e I. exact (identity_full detect H f0 ops WF e I). Qed.
 Print Assumptions C12_identity_is_current.
 
@@ -70,19 +74,20 @@ Proof.
 Qed.
 Print Assumptions C12_swap_back.
 
-(* Two different binaries never share a result key — at the same path at different times, or under
-   the same name at different paths. *)
+(* Two different (working) compiler binaries never share a result key — at the same path at
+   different times, or under the same name at different paths. *)
 Theorem C12_distinct_binaries_never_share :
   forall (detect : N -> option N) (H : N -> N -> N) (f0 : fs) (ops : list op),
     collision_free_in_play detect H f0 ops = true ->
     wf_history detect H VFixed f0 ops = true ->
-    forall e1 e2 b1 m1 b2 m2 k1 k2,
+    forall e1 e2 b1 m1 b2 m2 i1 i2,
       In e1 (exec detect H VFixed (start f0) ops) -> In e2 (exec detect H VFixed (start f0) ops) ->
-      e_cur e1 = Some (b1, m1) -> e_cur e2 = Some (b2, m2) -> b1 <> b2 ->
-      e_key e1 = Some k1 -> e_key e2 = Some k2 -> k1 <> k2.
+      e_cur e1 = Some (b1, m1) -> e_cur e2 = Some (b2, m2) ->
+      detect b1 = Some i1 -> detect b2 = Some i2 -> b1 <> b2 ->
+      exists k1 k2, e_key e1 = Some k1 /\ e_key e2 = Some k2 /\ k1 <> k2.
 Proof.
-  intros detect H f0 ops CF WF e1 e2 b1 m1 b2 m2 k1 k2 I1 I2 C1 C2 NE K1 K2.
-  exact (distinct_never_share detect H f0 ops WF e1 e2 b1 m1 b2 m2 k1 k2 CF I1 I2 C1 C2 NE K1 K2).
+  intros detect H f0 ops CF WF e1 e2 b1 m1 b2 m2 i1 i2 I1 I2 C1 C2 D1 D2 NE.
+  exact (distinct_never_share detect H f0 ops WF e1 e2 b1 m1 b2 m2 i1 i2 CF I1 I2 C1 C2 D1 D2 NE).
 Qed.
 Print Assumptions C12_distinct_binaries_never_share.
 
